@@ -17,7 +17,8 @@ import (
 // partial frame delivered, recovery, no leaked task).
 
 type CutPlan struct {
-	Flow      *FlowPlan `json:"flow"`
+	Flow      *FlowPlan `json:"flow,omitempty"`
+	Rpc       *RpcPlan  `json:"rpc,omitempty"`
 	Enumerate bool      `json:"enumerate"`  // false: run Flow as is (its fault list is fixed): the replay form
 	MaxPoints int       `json:"max_points"` // cap on cut points per (direction, kind) when the session is long
 }
@@ -27,7 +28,51 @@ type cutScn struct{}
 func (cutScn) Name() string     { return "cut" }
 func (cutScn) Property() string { return "C09" }
 
+func genRpcSession(g *simrt.Rng, tier string) *RpcPlan {
+	p := genRpcPlan(g, tier)
+	p.Faulty = true
+	p.Clients = p.Clients[:1]
+	if len(p.Calls) > 3 {
+		p.Calls = p.Calls[:1+g.IntN(3)]
+	}
+	for i := range p.Calls {
+		c := &p.Calls[i]
+		c.Client = 0
+		c.ReqSize, c.ResultSize = min(c.ReqSize, 40), min(c.ResultSize, 40)
+		if len(c.CliStream) > 2 {
+			c.CliStream = c.CliStream[:2]
+		}
+		if len(c.SrvStream) > 2 {
+			c.SrvStream = c.SrvStream[:2]
+		}
+		for k := range c.CliStream {
+			c.CliStream[k] = min(c.CliStream[k], 30)
+		}
+		for k := range c.SrvStream {
+			c.SrvStream[k] = min(c.SrvStream[k], 30)
+		}
+		if len(c.Msg) > 20 {
+			c.Msg = c.Msg[:20]
+		}
+		c.CancelUs = 0
+		if c.DelayUs > 0 {
+			c.DelayUs = 20000 // the caller is blocked in Response when the cut comes
+		}
+	}
+	p.Net.LatencyMaxUs = min(p.Net.LatencyMaxUs, 2000)
+	p.Net.LatencyMinUs = min(p.Net.LatencyMinUs, p.Net.LatencyMaxUs)
+	p.Calls = append(p.Calls, RpcCall{Kind: "request", Code: "ok", ReqSize: 20, ResultSize: 24, Probe: true})
+	return p
+}
+
 func (cutScn) Generate(g *simrt.Rng, tier string) any {
+	mpts := 120
+	if tier == "thorough" {
+		mpts = 400
+	}
+	if g.Bool(0.4) {
+		return &CutPlan{Rpc: genRpcSession(g, tier), Enumerate: true, MaxPoints: mpts}
+	}
 	p := &FlowPlan{Env: genEnv(g, tier), Faulty: true}
 	// short sessions; operations blocked on the window / the write queue at the time of the fault
 	if g.Bool(0.5) {
@@ -65,35 +110,62 @@ func (cutScn) Decode(raw json.RawMessage) (any, error) {
 	return p, err
 }
 
+// session abstracts over the two kinds of recorded sessions.
+type cutSession struct {
+	clone func(faults []simnet.Fault) *CutPlan
+	run   func(cp *CutPlan, o RunOpts, tap func(int, int, []byte), post func(net *simnet.Net)) *Report
+}
+
 func (cutScn) Run(t *testing.T, seed uint64, plan any, o RunOpts) *Report {
 	cp := plan.(*CutPlan)
+	var ses cutSession
+	if cp.Rpc != nil {
+		ses.clone = func(f []simnet.Fault) *CutPlan {
+			b, _ := json.Marshal(cp.Rpc)
+			q := &RpcPlan{}
+			json.Unmarshal(b, q)
+			q.Net.Faults = f
+			return &CutPlan{Rpc: q}
+		}
+		ses.run = func(c *CutPlan, o RunOpts, tap func(int, int, []byte), post func(net *simnet.Net)) *Report {
+			return runFaultyRpc(t, seed, c.Rpc, o, tap, post)
+		}
+	} else {
+		ses.clone = func(f []simnet.Fault) *CutPlan {
+			q := cloneFlow(cp.Flow)
+			q.Net.Faults = f
+			return &CutPlan{Flow: q}
+		}
+		ses.run = func(c *CutPlan, o RunOpts, tap func(int, int, []byte), post func(net *simnet.Net)) *Report {
+			return runFaultyFlow(t, seed, c.Flow, o, tap, post)
+		}
+	}
 	if !cp.Enumerate {
-		return runFaultyFlow(t, seed, cp.Flow, o)
+		return ses.run(cp, o, nil, nil)
 	}
 	// dry run: the session without faults
-	dryPlan := cloneFlow(cp.Flow)
-	dryPlan.Net.Faults = nil
 	var sizes [2]int64
 	var bounds [2][]int64
-	dry := runFlowX(t, seed, dryPlan, o, "C09", func(r *flowRun) {
-		mon := newWireMon(false)
-		r.post = func(net *simnet.Net, eps []*endpoint) {
-			if len(net.Pairs()) > 0 {
-				pr := net.Pairs()[0]
-				sizes[0], sizes[1] = pr.C.Sent, pr.S.Sent
-			}
-			for d := 0; d < 2; d++ {
-				bounds[d] = append([]int64(nil), mon.dirOf(0, d).boundaries...)
-			}
+	mon := newWireMon(false)
+	dryPlan := ses.clone(nil)
+	dry := ses.run(dryPlan, o, mon.feed, func(net *simnet.Net) {
+		if len(net.Pairs()) > 0 {
+			pr := net.Pairs()[0]
+			sizes[0], sizes[1] = pr.C.Sent, pr.S.Sent
 		}
-		r.tap = mon.feed
+		for d := 0; d < 2; d++ {
+			bounds[d] = append([]int64(nil), mon.dirOf(0, d).boundaries...)
+		}
 	})
 	total := newReportMerge(dry)
 	if len(dry.Violations) > 0 || dry.Inconclusive != "" {
-		dry.ReplayPlan = &CutPlan{Flow: dryPlan}
+		dry.ReplayPlan = dryPlan
 		return dry
 	}
 	total.count("sessions", 1)
+	if cp.Rpc != nil {
+		total.count("sessions_rpc", 1)
+	}
 	for dir := 0; dir < 2; dir++ {
 		n := sizes[dir]
 		points := cutPoints(n, bounds[dir], cp.MaxPoints, seed+uint64(dir))
@@ -102,13 +174,12 @@ func (cutScn) Run(t *testing.T, seed uint64, plan any, o RunOpts) *Report {
 		}
 		for _, kind := range []simnet.FaultKind{simnet.FaultRST, simnet.FaultFIN} {
 			for _, k := range points {
-				q := cloneFlow(cp.Flow)
-				q.Net.Faults = []simnet.Fault{{Conn: 0, Dir: dir, AtByte: k, Kind: kind}}
-				rep := runFaultyFlow(t, seed, q, RunOpts{CheckGoid: o.CheckGoid && k%16 == 0})
+				q := ses.clone([]simnet.Fault{{Conn: 0, Dir: dir, AtByte: k, Kind: kind}})
+				rep := ses.run(q, RunOpts{CheckGoid: o.CheckGoid && k%16 == 0}, nil, nil)
 				total.merge(rep)
 				total.count("cut_points", 1)
 				if len(rep.Violations) > 0 || rep.Inconclusive != "" {
-					rep.ReplayPlan = &CutPlan{Flow: q}
+					rep.ReplayPlan = q
 					rep.Counts = total.Counts
 					rep.Steps, rep.Switches, rep.SimUs = total.Steps, total.Switches, total.SimUs
 					return rep
@@ -117,6 +188,34 @@ func (cutScn) Run(t *testing.T, seed uint64, plan any, o RunOpts) *Report {
 		}
 	}
 	return total
+}
+
+// runFaultyRpc runs an rpc plan with its planned faults and applies the C09 oracles.
+func runFaultyRpc(t *testing.T, seed uint64, p *RpcPlan, o RunOpts, tap func(int, int, []byte), post func(net *simnet.Net)) *Report {
+	p.Faulty = true
+	var rr *rpcRun
+	rep := runRpcX(t, seed, p, o, func(r *rpcRun) {
+		rr = r
+		r.tap = tap
+		r.postNet = post
+	})
+	if rep.Inconclusive != "" || len(rep.Violations) > 0 {
+		return rep
+	}
+	for _, l := range rr.log.errors {
+		if containsAny(l, "panic", "Panic") && !containsAny(l, "verif-sentinel-panic") {
+			rep.violate("C09-panic-logged", "the library logged a panic after a transport failure: %s", trunc(l, 300))
+			return rep
+		}
+	}
+	if len(rep.Panics) > 0 {
+		rep.violate("C09-panic", "the library panicked after a transport failure: %s", trunc(rep.Panics[0], 900))
+		return rep
+	}
+	if len(rr.leaked) > 0 {
+		rep.violate("C09-leak", "tasks of the system are still alive long after the fault and after everything was closed: %v", rr.leaked)
+	}
+	return rep
 }
 
 // cutPoints returns the byte offsets to cut at: all of [0,n] for short directions, otherwise
@@ -170,12 +269,18 @@ func sortInt64(a []int64) {
 }
 
 // runFaultyFlow runs a flow plan with its planned faults and applies the C09 oracles.
-func runFaultyFlow(t *testing.T, seed uint64, p *FlowPlan, o RunOpts) *Report {
+func runFaultyFlow(t *testing.T, seed uint64, p *FlowPlan, o RunOpts, tap func(int, int, []byte), post func(net *simnet.Net)) *Report {
 	p.Faulty = true
 	var rr *flowRun
 	rep := runFlowX(t, seed, p, o, "C09", func(r *flowRun) {
 		rr = r
-		r.post = r.recoveryProbe
+		r.tap = tap
+		r.post = func(net *simnet.Net, eps []*endpoint) {
+			r.recoveryProbe(net, eps)
+			if post != nil {
+				post(net)
+			}
+		}
 	})
 	if rep.Inconclusive != "" || len(rep.Violations) > 0 {
 		return rep
@@ -278,6 +383,12 @@ func (cutScn) Shrink(plan any) []any {
 		return nil
 	}
 	var out []any
+	if cp.Rpc != nil {
+		for _, q := range shrinkRpc(cp.Rpc) {
+			out = append(out, &CutPlan{Rpc: q.(*RpcPlan)})
+		}
+		return out
+	}
 	for _, q := range shrinkFlow(cp.Flow) {
 		out = append(out, &CutPlan{Flow: q.(*FlowPlan)})
 	}
